@@ -571,6 +571,7 @@ class RulesMixin:
         old_env = self.snapshot_env(env)
         # every call made through a contract is recorded (contracts can speak about call order)
         self.traces.setdefault("calls", []).append((fc.qualname.split(":")[1],) + tuple(args))
+        self.traces.setdefault("call_kwargs", []).append((fc.qualname.split(":")[1], dict(kwargs or {})))
         if getattr(self, "clock", None) is not None:
             self.traces.setdefault("call_times", []).append((fc.qualname.split(":")[1], self.clock))
         self.unit_call_requires(fc.qualname.split(":")[1], fr)
